@@ -15,6 +15,13 @@ package main
 //	                           of code path <path> (C commit, F flush, X close) attributed to workload line <op#>
 //	recover                    reopen the directory with the plain FS and dump everything
 //	close / reopen             clean close, reopen (C12), dump
+//	vtxn <ver> <ent> ...       a transaction whose entries carry their own version <ver> (kv.Entry.Version through
+//	                           Txn.SetEntry), lower than versions already stored
+//	ptxn <ent> ... / join      asynchronous commits: the first ptxn of a group is parked right before the sync:wal
+//	                           of its commit (the hook holds the commit worker there), the following ptxn lines
+//	                           queue up behind it; `join` releases the worker: the queued requests are ONE commit
+//	                           batch (several requests: vlog.write for all, then head/LSM per request, one sync)
+//	maint rotate               seal the active memtable and flush it (the new memtable / WAL segment is empty)
 //	maint l0move|drain|keep    one synchronous compaction step through the real planner + executor
 //	                           (lsm/verif_lsm_hooks.go, background compactors stopped): contents must not change
 //	probe                      commit one more transaction and report its version against all stored versions
@@ -39,6 +46,8 @@ type opSpec struct {
 	Sync       bool
 	MT, VT, VF int
 	L0         int // NumLevelZeroTables (0 = 64: no compaction in small workloads)
+	BS         int // MaxBatchSize / WriteBatchMaxSize (0 = default 1 MiB)
+	MR         int // ManifestRewriteThreshold (0 = default 64 MiB; 1 = rewrite after every edit)
 	// txn
 	Ents []entSpec
 	// kill
@@ -59,6 +68,9 @@ func expiryOf(mode int) uint64 {
 	}
 	return 0
 }
+
+// isTxn: the line commits one transaction (and consumes one commit timestamp)
+func isTxn(kind string) bool { return kind == "txn" || kind == "ptxn" || kind == "vtxn" }
 
 // lineOfValue recovers the workload line that wrote a value from its self-describing pattern "<line.key>...".
 func lineOfValue(v []byte) int {
@@ -104,12 +116,27 @@ func parseOp(line string) (opSpec, error) {
 				o.VF = n
 			case "l0":
 				o.L0 = n
+			case "bs":
+				o.BS = n
+			case "mr":
+				o.MR = n
 			default:
 				return o, fmt.Errorf("bad open arg %q", kv)
 			}
 		}
-	case "txn":
-		for _, e := range f[1:] {
+	case "txn", "ptxn", "vtxn":
+		ents := f[1:]
+		if f[0] == "vtxn" {
+			if len(f) < 3 {
+				return o, fmt.Errorf("vtxn <version> <ent>...")
+			}
+			var err error
+			if o.K, err = strconv.Atoi(f[1]); err != nil {
+				return o, err
+			}
+			ents = f[2:]
+		}
+		for _, e := range ents {
 			parts := strings.Split(e, ":")
 			if len(parts) != 4 {
 				return o, fmt.Errorf("bad entry %q", e)
@@ -165,8 +192,8 @@ func parseOp(line string) (opSpec, error) {
 			return o, err
 		}
 	case "maint":
-		if len(f) != 2 || (f[1] != "l0move" && f[1] != "drain" && f[1] != "keep") {
-			return o, fmt.Errorf("maint l0move|drain|keep")
+		if len(f) != 2 || (f[1] != "l0move" && f[1] != "drain" && f[1] != "keep" && f[1] != "rotate") {
+			return o, fmt.Errorf("maint l0move|drain|keep|rotate")
 		}
 		o.Path = f[1]
 	case "wait":
@@ -186,7 +213,7 @@ func parseOp(line string) (opSpec, error) {
 		if len(f) != 3 {
 			return o, fmt.Errorf("probe <est> <plen>")
 		}
-	case "recover", "close", "reopen":
+	case "recover", "close", "reopen", "join":
 	default:
 		return o, fmt.Errorf("unknown op %q", f[0])
 	}
